@@ -409,6 +409,52 @@ func applyIsReplace(fn *ssa.Function) (string, string) {
 }
 
 // replaceIsFold: one loop over the receiver; str = aa.Regex.ReplaceAllLiteralString(str, aa.Repl).
+
+// indexWalksAll: idx is the index of a loop that visits every element from the first to the
+// last: the hidden index of a range loop, or a counter from 0 in steps of 1 whose loop
+// condition is counter < len(x) with isSlice(x).
+func indexWalksAll(idx ssa.Value, isSlice func(ssa.Value) bool) bool {
+	if bo, ok := idx.(*ssa.BinOp); ok && bo.Op == token.ADD {
+		if rp, ok := bo.X.(*ssa.Phi); ok && rp.Comment == "rangeindex" {
+			return true
+		}
+	}
+	cp, ok := idx.(*ssa.Phi)
+	if !ok {
+		return false
+	}
+	zero, step := false, false
+	for _, e := range cp.Edges {
+		if c, ok := e.(*ssa.Const); ok && c.Value != nil && c.Value.ExactString() == "0" {
+			zero = true
+		} else if bo, ok := e.(*ssa.BinOp); ok && bo.Op == token.ADD && bo.X == ssa.Value(cp) {
+			if c, ok := bo.Y.(*ssa.Const); ok && c.Value != nil && c.Value.ExactString() == "1" {
+				step = true
+			}
+		} else {
+			return false
+		}
+	}
+	if !zero || !step {
+		return false
+	}
+	hb := cp.Block()
+	iff, ok := hb.Instrs[len(hb.Instrs)-1].(*ssa.If)
+	if !ok {
+		return false
+	}
+	cmp, ok := iff.Cond.(*ssa.BinOp)
+	if !ok || cmp.Op != token.LSS || cmp.X != ssa.Value(cp) {
+		return false
+	}
+	lc, ok := cmp.Y.(*ssa.Call)
+	if !ok {
+		return false
+	}
+	bi, ok := lc.Call.Value.(*ssa.Builtin)
+	return ok && bi.Name() == "len" && len(lc.Call.Args) == 1 && isSlice(lc.Call.Args[0])
+}
+
 func replaceIsFold(fn *ssa.Function) (bool, string) {
 	var calls []*ssa.Call
 	for _, b := range fn.Blocks {
@@ -469,15 +515,38 @@ func replaceIsFold(fn *ssa.Function) (bool, string) {
 	if f0 != 0 || f2 != 1 {
 		return false, "pattern/replacement are not the Regex and Repl fields of the element"
 	}
-	same := e0 == e2
-	if !same {
-		// both may load the element separately from the same index address
-		l0, ok0 := e0.(*ssa.UnOp)
-		l2, ok2 := e2.(*ssa.UnOp)
-		same = ok0 && ok2 && l0.X == l2.X
+	// the element: an index address into the receiver (possibly loaded first)
+	elemAddr := func(v ssa.Value) *ssa.IndexAddr {
+		if al, ok := v.(*ssa.Alloc); ok {
+			// the range variable: a local copy of the element (one store, from the element)
+			var src ssa.Value
+			n := 0
+			for _, r := range *al.Referrers() {
+				if st, ok := r.(*ssa.Store); ok && st.Addr == ssa.Value(al) {
+					src = st.Val
+					n++
+				}
+			}
+			if n != 1 {
+				return nil
+			}
+			v = src
+		}
+		if ld, ok := v.(*ssa.UnOp); ok {
+			v = ld.X
+		}
+		ia, _ := v.(*ssa.IndexAddr)
+		return ia
 	}
-	if !same {
+	a0, a2 := elemAddr(e0), elemAddr(e2)
+	if a0 == nil || a2 == nil || a0.X != a2.X || a0.Index != a2.Index {
 		return false, "pattern and replacement come from different elements"
+	}
+	if a0.X != ssa.Value(fn.Params[0]) {
+		return false, "the elements are not those of the receiver list"
+	}
+	if !indexWalksAll(a0.Index, func(v ssa.Value) bool { return v == ssa.Value(fn.Params[0]) }) {
+		return false, "the loop does not visit every element of the list from the first to the last"
 	}
 	for _, b := range fn.Blocks {
 		if r, ok := b.Instrs[len(b.Instrs)-1].(*ssa.Return); ok {
@@ -540,41 +609,10 @@ func runIsComposition(fn *ssa.Function, pkg *ssa.Package) (bool, string) {
 	}
 	// every element is visited, first to last: a range loop, or a counter from 0 in steps
 	// of 1 whose loop condition is counter < len(Builds)
-	walksAll := false
-	if bo, ok := ia.Index.(*ssa.BinOp); ok && bo.Op == token.ADD {
-		if rp, ok := bo.X.(*ssa.Phi); ok && rp.Comment == "rangeindex" {
-			walksAll = true
-		}
-	}
-	if cp, ok := ia.Index.(*ssa.Phi); ok && !walksAll {
-		zero, step := false, false
-		for _, e := range cp.Edges {
-			if c, ok := e.(*ssa.Const); ok && c.Value != nil && c.Value.ExactString() == "0" {
-				zero = true
-			} else if bo, ok := e.(*ssa.BinOp); ok && bo.Op == token.ADD && bo.X == ssa.Value(cp) {
-				if c, ok := bo.Y.(*ssa.Const); ok && c.Value != nil && c.Value.ExactString() == "1" {
-					step = true
-				}
-			} else {
-				zero = false
-				break
-			}
-		}
-		if zero && step {
-			hb := cp.Block()
-			if iff, ok := hb.Instrs[len(hb.Instrs)-1].(*ssa.If); ok {
-				if cmp, ok := iff.Cond.(*ssa.BinOp); ok && cmp.Op == token.LSS && cmp.X == ssa.Value(cp) {
-					if lc, ok := cmp.Y.(*ssa.Call); ok {
-						if bi, ok := lc.Call.Value.(*ssa.Builtin); ok && bi.Name() == "len" && len(lc.Call.Args) == 1 {
-							if l2, ok := lc.Call.Args[0].(*ssa.UnOp); ok && l2.X == ssa.Value(gl) {
-								walksAll = true
-							}
-						}
-					}
-				}
-			}
-		}
-	}
+	walksAll := indexWalksAll(ia.Index, func(v ssa.Value) bool {
+		l2, ok := v.(*ssa.UnOp)
+		return ok && l2.X == ssa.Value(gl)
+	})
 	if !walksAll {
 		return false, "the loop does not visit every element of Builds from the first to the last"
 	}
